@@ -45,8 +45,8 @@ def check_table(smallest, table, tail_of, w, lo_att, hi_att):
     return ""
 
 
-def gen_pwm(rng):
-    w = rng.choice([1, 2, 3, 5, 8, 12, 15, 20, 25, 30])
+def gen_pwm(rng, like=None):
+    w = like[0].shape[1] if like is not None else rng.choice([1, 2, 3, 5, 8, 12, 15, 20, 25, 30])
     cols = []
     for _ in range(w):
         r = rng.random()
@@ -61,6 +61,8 @@ def gen_pwm(rng):
             col = [v / sum(g) for v in g]
         cols.append(col)
     pwm = numpy.array(cols, dtype=numpy.float64).T
+    if like is not None:
+        return pwm, like[1], like[2]
     eps = rng.choice([1e-6, 1e-4, 1e-3, 1e-2, 0.1])
     bin_size = rng.choice([1.0, 0.5, 0.25, 0.1, 0.05, 0.02, 0.01]) if w <= 15 else rng.choice([1.0, 0.5, 0.25, 0.1])
     return pwm, eps, bin_size
@@ -118,8 +120,12 @@ def handler(case):
         rng = random.Random(case["seed"])
         outs = []
         todo = []
+        prev = None
         for k in range(case["n"]):
-            pwm, eps, bin_size = gen_pwm(rng)
+            # every second motif has the width, pseudocount and bin size of the one before it: under the same name in fimo()
+            # only the matrix differs
+            pwm, eps, bin_size = gen_pwm(rng, like=prev if (k % 2 == 1 and prev is not None and prev[0].shape[1] <= 12) else None)
+            prev = (pwm, eps, bin_size)
             todo.append((pwm, eps, bin_size, 0))
             if pwm.shape[1] <= 12 and k % 2 == 0:
                 # the same motif again in the same process with another pseudocount, then the first one again (a history of calls)
@@ -155,7 +161,35 @@ def handler(case):
             outs.append(dict(M=Ms, R=R, shift=int(colmin.sum()), w=int(I.shape[1]), eps=eps, bin_size=bin_size, st=st, hits=hits, step=step, f32=f32,
                              smallest=smallest, table=[("nan" if t != t else ("-inf" if t == float("-inf") else t)) for t in table],
                              pwm=[[round(v, 6) for v in row] for row in pwm.tolist()]))
-        return {"cases": outs}
+        wide = []
+        for k in range(case.get("wide", 0)):
+            # motifs wider than any exact count fits (w = 64-90): the ends of the table have closed forms -- the lowest attainable
+            # bin has tail probability 1, the highest attainable bin has probability (number of sequences attaining every column
+            # maximum) / 4^w and must not be -inf, the bin above it is -inf
+            w = rng.choice([64, 70, 90])
+            pwm, eps, bin_size = gen_pwm(rng, like=(numpy.zeros((4, w)), 1e-4, rng.choice([1.0, 0.5, 0.1])))
+            logp = numpy.log2(pwm + eps) - math.log2(0.25)
+            I = numpy.round(logp / bin_size).astype(numpy.int64)
+            lo_s, hi_s = int(I.min(axis=0).sum()), int(I.max(axis=0).sum())
+            ntop = 1
+            for j in range(w):
+                ntop *= int((I[:, j] == I[:, j].max()).sum())
+            try:
+                smallest, table = table_of(logp, bin_size)
+                top = table[hi_s - smallest] if 0 <= hi_s - smallest < len(table) else float("nan")
+                above = table[hi_s + 1 - smallest] if hi_s + 1 - smallest < len(table) else float("-inf")
+                bottom = table[lo_s - smallest] if 0 <= lo_s - smallest < len(table) else float("nan")
+                v = ""
+                if not (abs(bottom) < 1e-6):
+                    v = "table is not 1 at the lowest attainable score of a %d-column motif (log2 p = %r)" % (w, bottom)
+                elif not (top > float("-inf") and abs(top - (math.log2(ntop) - 2 * w)) < 1e-6):
+                    v = "p-value of the highest attainable score of a %d-column motif is %r, exact log2 value %r" % (w, top, math.log2(ntop) - 2 * w)
+                elif above != float("-inf"):
+                    v = "p-value above the highest attainable score is not zero"
+            except Exception as e:
+                v = "_pwm_to_mapping raised %s on a %d-column motif" % (type(e).__name__, w)
+            wide.append(dict(w=w, bin_size=bin_size, v=v))
+        return {"cases": outs, "wide": wide}
 
 
 if __name__ == "__main__":
